@@ -75,7 +75,7 @@ func foldStrict(state map[int]bool, m mutRec) (problems []string) {
 }
 
 type setOp struct {
-	Op  string `json:"op"`  // add delete addall deleteall apply compute replace
+	Op  string `json:"op"`  // add delete addall deleteall apply compute replace clear
 	A   []int  `json:"a"`   // element(s) / added set
 	B   []int  `json:"b"`   // apply: deleted set
 	Yld int    `json:"yld"` // concurrent variant: yields before the op
@@ -138,7 +138,7 @@ func modelApply(state map[int]bool, o setOp) (mutRec, map[int]bool) {
 		for _, e := range toDel {
 			del(e)
 		}
-	case "replace":
+	case "replace", "clear":
 		in := map[int]bool{}
 		for _, e := range o.A {
 			in[e] = true
@@ -185,6 +185,9 @@ func doSetOp(s reactive.Set[int], o setOp) {
 		})
 	case "replace":
 		s.Replace(ds.NewSet(o.A...))
+	case "clear":
+		// "Clear removes all elements from the set": a write like Replace(empty set)
+		s.Clear()
 	default:
 		panic("unknown set op " + o.Op)
 	}
@@ -473,13 +476,14 @@ func genElems(minLen, maxLen int) *rapid.Generator[[]int] {
 
 func genSetOp() *rapid.Generator[setOp] {
 	return rapid.Custom(func(t *rapid.T) setOp {
-		o := setOp{Op: rapid.SampledFrom([]string{"add", "add", "delete", "delete", "addall", "deleteall", "apply", "apply", "compute", "replace", "replace"}).Draw(t, "op")}
+		o := setOp{Op: rapid.SampledFrom([]string{"add", "add", "delete", "delete", "addall", "deleteall", "apply", "apply", "compute", "replace", "replace", "clear"}).Draw(t, "op")}
 		switch o.Op {
 		case "add", "delete":
 			o.A = []int{rapid.IntRange(0, universe-1).Draw(t, "e")}
 		case "apply":
 			o.A = genElems(0, 3).Draw(t, "added")
 			o.B = genElems(0, 3).Draw(t, "deleted")
+		case "clear":
 		default:
 			o.A = genElems(0, 4).Draw(t, "elems")
 		}
@@ -516,7 +520,7 @@ func genSetSeqProg(t *rapid.T) setSeqProg {
 const checkSetSeq = "set_sequential"
 
 func TestSetSeq(t *testing.T) {
-	stats.Rule(checkSetSeq, "rapid draws initial contents (universe 0..5) and 1-14 actions: Add/Delete/AddAll/DeleteAll/Apply(added, deleted - overlapping each other and the contents)/Compute(toggle)/Replace with drawn element sets, OnUpdate with/without flag, unsubscribe; each subscription carries up to 2 nested actions run inside its k-th callback (subscribe another consumer, unsubscribe ANOTHER subscription, read). Oracle: exact expected report list per subscriber from a set model (reports without content are ignored), strict fold with the library's fold order (add, then delete), fold == ToSlice() for live subscribers. Non-trivial = subscribe/unsubscribe inside a writer's callback phase, or Replace overlapping the contents, or a subscriber that arrived at non-empty contents and saw a later change. Distinct by action list.")
+	stats.Rule(checkSetSeq, "rapid draws initial contents (universe 0..5) and 1-14 actions: Add/Delete/AddAll/DeleteAll/Apply(added, deleted - overlapping each other and the contents)/Compute(toggle)/Replace/Clear with drawn element sets, OnUpdate with/without flag, unsubscribe; each subscription carries up to 2 nested actions run inside its k-th callback (subscribe another consumer, unsubscribe ANOTHER subscription, read). Oracle: exact expected report list per subscriber from a set model (reports without content are ignored), strict fold with the library's fold order (add, then delete), fold == ToSlice() for live subscribers. Non-trivial = subscribe/unsubscribe inside a writer's callback phase, or Replace overlapping the contents, or a subscriber that arrived at non-empty contents and saw a later change. Distinct by action list.")
 	rapid.Check(t, func(rt *rapid.T) {
 		p := genSetSeqProg(rt)
 		v := runSetSeq(p)
